@@ -334,7 +334,10 @@ func workerMain(t *testing.T, def *PropDef, out string) {
 				res.KnownHits[o.Sig]++
 			} else if !seenViol[o.Sig] {
 				seenViol[o.Sig] = true
-				min := Shrink(p, o.Sig, func(c *Plan) *Outcome { return runPlan(t, def, c) }, 400)
+				min := p
+				if os.Getenv("DSIM_NOSHRINK") == "" {
+					min = Shrink(p, o.Sig, func(c *Plan) *Outcome { return runPlan(t, def, c) }, envInt("DSIM_SHRINK_BUDGET", 400))
+				}
 				mo := runPlan(t, def, min)
 				min.ExpectSig = o.Sig
 				min.Detail = mo.Detail
@@ -342,7 +345,7 @@ func workerMain(t *testing.T, def *PropDef, out string) {
 				path := filepath.Join(outDir, fmt.Sprintf("%016x.json", hashString(o.Sig)))
 				_ = min.Save(path)
 				res.Violations = append(res.Violations, ViolationRec{Sig: o.Sig, Detail: mo.Detail, Replay: path, Seed: seed})
-				if len(res.Violations) >= 8 {
+				if len(res.Violations) >= envInt("DSIM_MAXVIOL", 8) {
 					break
 				}
 			}
